@@ -90,10 +90,14 @@ example : getSieveSize 0 ⟨0, 0, 0, 0⟩ = 256 ∧ getSieveSize 0 ⟨32768, 409
     them — harmless or not — breaks this obligation; the check then searches for a failing input
     with the correspondence streams (DESIGN.md section 2, step 5). -/
 theorem C08_model_sources :
-    Gen.modelSources.filter (fun e => e.1 ∈ ["api.get_sieve_size", "api.set_sieve_size", "api.set_num_threads", "Erat.initAlgorithms"]) =
+    Gen.modelSources.filter (fun e => e.1 ∈ ["api.get_sieve_size", "api.set_sieve_size", "api.set_num_threads", "PrimeGenerator_default.fillNextPrimes", "PrimeGenerator_default.fillPrevPrimes", "PrimeGenerator_avx512.fillNextPrimes", "PrimeGenerator_avx512.fillPrevPrimes", "Erat.initAlgorithms"]) =
      [("api.get_sieve_size", "4826eb7aec7e5c8e8bfb"),
       ("api.set_sieve_size", "541cf8dd390836f5d9de"),
       ("api.set_num_threads", "eaa404d0c1acb5afdfb3"),
+      ("PrimeGenerator_default.fillNextPrimes", "0a69dc0049d71ebe96df"),
+      ("PrimeGenerator_default.fillPrevPrimes", "0272d4b8fe4d0a8ef7e2"),
+      ("PrimeGenerator_avx512.fillNextPrimes", "7df9e1d9dff83718d8d2"),
+      ("PrimeGenerator_avx512.fillPrevPrimes", "37502b8750d9600d675d"),
       ("Erat.initAlgorithms", "f1a7ebe09c59958b8c39")] := by decide
 
 end Ps.Props
